@@ -1,4 +1,5 @@
 import CacheVerif.Proofs.ProtoHW
+import CacheVerif.Spec.Linearizability
 import CacheVerif.Proofs.SlotMapHindsight
 import CacheVerif.Props.C11
 /-!
@@ -29,6 +30,8 @@ correspondence), and every explored history of the real `Map` is judged by the L
   immediately before the `Clear` that helps them), form a legal history of the builtin map whose final state is the
   map's abstract content; every completed call is at exactly one position of it, inside its own interval, with the
   result it returned.  This is the linearization-point form of Herlihy–Wing linearizability for the whole history.
+  The bridge to Herlihy–Wing's permutation wording is the generic `C03_C04_points_give_hw_witness`; its
+  instantiation for M4a's event lists (reading the call records off a run) is bookkeeping and is not written out.
 **Partial**: M4a's chain read is one atomic step (justified by the M4b hindsight theorems above — the composition
 of the two models is argued in DESIGN.md §4.3, not mechanised).
 -/
@@ -234,6 +237,17 @@ theorem C03_C04_fastpath_point (hmin : 0 < p.minLen) (ts : List Model.Proto.Tid)
     (∀ y ∈ inside, y.tid ≠ t) →
     ∃ n, n ≤ inside.length ∧ specFold (fun _ => none) (before ++ inside.take n) k = some x :=
   fastpath_point p hmin ts pre mid post s0 s' s'' h0 h1 h2 hts t k f co x hstart hn hop hret hres
+
+/-- **from linearization points to Herlihy–Wing's permutation wording** (generic, `Spec/Linearizability.lean`): calls
+ordered by linearization times that lie inside their intervals, forming a legal sequential history, are a
+Herlihy–Wing witness (same calls, legal, real-time precedence preserved).  The log theorems above provide exactly
+these ingredients for every run of M4a: the log is legal, it is ordered by the steps that contribute its entries, and
+each entry's step lies inside its call's interval. -/
+theorem C03_C04_points_give_hw_witness {S O R : Type} (step : S → O → S × R) (s0 : S) (H L : List (Spec.HW.Call O R))
+    (hperm : L.Perm H) (hlegal : Spec.HW.legal step s0 L)
+    (hin : ∀ c ∈ H, c.inv ≤ c.lp ∧ c.lp ≤ c.resp)
+    (hsorted : L.Pairwise fun a b => a.lp ≤ b.lp) : Spec.HW.Witness step s0 H L :=
+  Spec.HW.witness_of_points step s0 H L hperm hlegal hin hsorted
 
 end hw
 
